@@ -422,6 +422,14 @@ def legacyFile (pre mid post : List LLine) (N : Nat → Nat) (X : Nat → List R
   pre ++ ([.coords (N 0), .nums (X 0), .coords (N 1), .nums (X 1), .coords (N 2), .nums (X 2)] ++
     (mid ++ ((if vec then [.vectors] else [.scalars, .alpha]) ++ (rows.map .nums ++ post))))
 
+/-- the region `Region(p1, p2)` builds from the bounds of a grid: default names and tolerance -/
+def plainRegion (pmin pmax : List Rat) : Region :=
+  { pmin := pmin, pmax := pmax, dims := ["x", "y", "z"], units := ["m", "m", "m"], tol := 1/1000000000000 }
+
+/-- cell size the legacy reader derives on axis `a` from `N a` points of spacing `c a`: the
+spacing, or the 1 nm default when there is a single point -/
+def legCe (N : Nat → Nat) (c : Nat → Rat) (a : Nat) : Rat := if 1 < N a then c a else nm1
+
 /-- lines among which the legacy reader finds no coordinate header and no `VECTORS` line -/
 def Quiet (l : List LLine) : Prop := ∀ x ∈ l, (∀ c, x ≠ .coords c) ∧ x ≠ .vectors
 
